@@ -103,7 +103,7 @@ fn main() {
 
 def e2e_pairs(res, tier, seed):
     rng = rng_for(seed, "C08", "E")
-    npk = 2 if tier == "quick" else 10
+    npk = 2 if tier == "quick" else 16
     nneg = 10 if tier == "quick" else 30
     root = os.path.join(e2e.E2E_ROOT, "c08")
     if os.path.exists(root):
@@ -224,7 +224,7 @@ def e2e_pairs(res, tier, seed):
 def run(tier, seed, replay=None):
     res = Result("C08", tier, seed, RULE)
     rng = rng_for(seed, "C08")
-    n = 300 if tier == "quick" else 4000
+    n = 300 if tier == "quick" else 15000
     cfg = GenCfg(mix_kinds=0.7, p_range=0.2, p_plural=0.15, p_fk=0.25, p_null=0.1, p_absent=0.1, n_locales=(2, 4))
     projs = [projects.gen_valid_project(rng, cfg) for _ in range(n)]
     for _ in range(n // 3):
